@@ -132,14 +132,24 @@ def sibling_case(case):
         # each file on its own first, last file first (so that nothing a run may leave behind in the interpreter comes from a file
         # that precedes it in the full project), then the full project
         alone_out = {}
-        for rel in sorted(files, reverse=True):
-            alone = root / ("alone-" + rel.replace("/", "_"))
+        judged = sorted(case.get("only") or files, reverse=True)
+        cwd0 = os.getcwd()
+        for rel in judged:
+            alone = root / ("alone-" + rel.replace("/", "_")) / "proj"
             e2e.write_project(alone, {rel: files[rel]})
-            e2e.run(alone, args)
+            if case.get("cwd_project"): os.chdir(alone)      # detectors that look at the working directory (semgrep's ignore rules)
+            try:
+                e2e.run(alone, args)
+            finally:
+                os.chdir(cwd0)
             alone_out[rel] = (alone / rel).read_bytes()
-        rf = e2e.run(full, args)
+        if case.get("cwd_project"): os.chdir(full)
+        try:
+            rf = e2e.run(full, args)
+        finally:
+            os.chdir(cwd0)
         tf = e2e.read_tree(full)
-        bad = [rel for rel in files if alone_out[rel] != tf[rel]]
+        bad = [rel for rel in judged if alone_out[rel] != tf[rel]]
         return {"rc": rf["rc"], "bad": bad, "n": len(files), "changed": sum(1 for r in files if tf[r] != files[r].encode())}
     finally:
         shutil.rmtree(root, ignore_errors=True)
@@ -320,6 +330,20 @@ def search(ctx):
                   "files": {"a_first.py": "import threading\nlock = object()\nrlock = object()\nwith threading.Lock():\n    print(lock)\n",
                             "b_second.py": "import threading\nwith threading.Lock():\n    pass\nwith threading.RLock():\n    pass\n",
                             "pkg/c_third.py": "import threading\n\n\ndef f():\n    with threading.Lock():\n        pass\n"}})
+    # rule-detected codemods that hand a list of argument specifications to the shared editor: what a file's call spells must not
+    # decide what happens to the next file
+    cases.append({"codemods": ["pixee:python/safe-lxml-parser-defaults"], "n": 0, "workers": 1, "seed": rng.randint(0, 10**9),
+                  "files": {"a_loader.py": "from lxml import etree\n\nparser = etree.XMLParser(resolve_entities=True)\n",
+                            "z_reader.py": "from lxml import etree\n\nparser = etree.XMLParser()\n"}})
+    cases.append({"codemods": ["pixee:python/secure-flask-cookie"], "n": 0, "workers": 1, "seed": rng.randint(0, 10**9),
+                  "files": {"a_first.py": "import flask\n\nresp = flask.make_response('x')\nresp.set_cookie('c', '1', secure=False, httponly=False)\n",
+                            "z_second.py": "import flask\n\nresp = flask.make_response('y')\nresp.set_cookie('d', '2')\n"}})
+    # a large project: what happens to one file does not depend on how many siblings it has (the detector is handed the files, it
+    # does not go looking for them under its own ignore rules)
+    big = {f"pkg{i // 50}/m{i}.py": f"x = {i}\n" for i in range(540)}
+    big["vendor/rng.py"] = "import random\n\nprint(random.random())\n"
+    cases.append({"codemods": ["pixee:python/secure-random"], "n": 0, "workers": 4, "seed": rng.randint(0, 10**9), "files": big,
+                  "only": ["vendor/rng.py"], "cwd_project": True})
     for c, r in zip(cases, impl.pool_map(sibling_case, cases, procs=8)):
         if r[0] != "ok":
             ctx.broke("c11 sibling harness", r[1]); continue
